@@ -335,7 +335,7 @@ func runByteRoundTrip(m *mon.M, c *Case) {
 	if w.errDelivered {
 		m.Class("fault-delivered")
 		if err == nil {
-			m.Violate("write-error-swallowed/"+c.Codec+"/produce", fmt.Sprintf("%s Produce from %s: the write error was delivered and nil was returned (written %s)", c.Codec, c.Kind, short(w.buf)), c)
+			m.Violate("write-error-swallowed/"+c.Codec+"/produce"+c.W.errFeat(), fmt.Sprintf("%s Produce from %s: the write error was delivered and nil was returned (written %s)", c.Codec, c.Kind, short(w.buf)), c)
 		}
 		return
 	}
@@ -399,7 +399,7 @@ func runByteRoundTrip(m *mon.M, c *Case) {
 	if r.errDelivered {
 		m.Class("fault-delivered")
 		if err == nil {
-			m.Violate("read-error-swallowed/"+c.Codec+"/consume", fmt.Sprintf("%s Consume into %T: the read error at byte %d of %d was delivered and nil was returned", c.Codec, dst, c.R.ErrAt, len(written)), c)
+			m.Violate("read-error-swallowed/"+c.Codec+"/consume"+c.R.errFeat(), fmt.Sprintf("%s Consume into %T: the read error at byte %d of %d was delivered and nil was returned", c.Codec, dst, c.R.ErrAt, len(written)), c)
 		}
 		return
 	}
